@@ -19,6 +19,16 @@ CHECKS = {
    text="TLC checks that the grow-and-park/release/flush buffer life-cycles of the reader, bytes reader, writer, bytes writer and ReaderSkipDecoder keep the ownership invariants (no live slice in a pooled or co-tenant buffer, caller memory never pooled, no pool use when caching is disabled) under every interleaving with an adversarial co-tenant. Recorded executions of the real code over the pool double (every Malloc/Free as an event, poison-on-free, foreign/double free detection, co-tenant draining and scribbling every class between operations, every handed-out slice retained and re-compared) must be enabled BufPool actions (rules P1..P5).",
    note="Trusted: TLC, the pool double's fidelity to mcache's contract, Go-side content comparison of retained slices and caller memory. A read-after-free that still sees the old bytes is visible only as an ownership-rule breach (free while live), not by content. Bounds: MC 3 pool buffers, 9 steps; traces: 3000 (quick) / 36000 (thorough) random histories.",
    design="6 C09, App. C"),
+ "C02": dict(
+   technique="TLA+ reference grammar (ThriftSkip) checked by TLC + TLC-judged traces of the five skippers on generated typed value trees",
+   text="TLC checks the reference grammar for self-delimitation over every byte string up to MaxLen over a grammar alphabet x 15 type tags; generated well-formed values of every type (all 11x11 map and 11 list/set combinations, counts 0/1/2/7, nesting 1..63, random trees, strings up to 72KB) with trailing bytes are fed to thrift.Binary.Skip (also flush against guard pages), BufferReader.Skip, SkipDecoder, BytesSkipDecoder and ReaderSkipDecoder under bytes-backed, fitting, 1-byte, zero-byte and data+EOF sources; TLC computes the extent with the reference and judges success, length, returned bytes and source position of every call.",
+   note="Trusted: TLC, the generator's segment projection (verified byte-by-byte), the recording sources. Well-formedness is decided by the TLA+ reference, never by the generator. Bounds: MC MaxLen 4 (quick) / 6 (thorough); 4.6k (quick) / 60k (thorough) values.",
+   design="6 C02, App. B"),
+ "C08": dict(
+   technique="TLA+ reference grammar with strict/lenient depth accounting checked by TLC + TLC-judged traces of the five skippers on hostile inputs",
+   text="TLC checks grammar facts (every strict prefix of a valid encoding is short; negative sizes and unknown tags stay rejected; strict = lenient accounting below depth 64) exhaustively over short strings; hostile inputs (every cut point of every 11x11/11 container combination and of random values, structural bytes x boundary values, size fields x {7fffffff,80000000,ffffffff,...}, foreign and >=0x80 requested types, nesting 1..70 x {empty,scalar,string} bottoms, raw grammar-alphabet strings) are fed to all skippers; each (ok n | err) must lie in the admissible set {strict, lenient} computed by TLC, and a negative size must never be acted upon (no giant request to reader or pool).",
+   note="Trusted: TLC, harness recorders, the shield reader/pool guard that refuse (and record) requests far beyond the input size. Inputs declaring > 1 MiB are not fed to ReaderSkipDecoder (it allocates what is declared). Bounds: MC MaxLen 5 (quick) / 6 (thorough); ~14k (quick) / ~150k (thorough) inputs.",
+   design="6 C08, App. C"),
 }
 NOT_YET = "check not built yet in this revision of /verif (work in progress; see DESIGN.md section 6 for the plan)"
 
